@@ -56,6 +56,93 @@ def tlc_deviation(ctx) -> list | None:
     return dict(W=st["W"], NT=st["NT"], out=st["out"])
 
 
+# --- chunked dispatch (spec/PoolChunks.tla) ---------------------------------
+
+_BUF = [0]
+
+
+def _fresh_job(t):
+    return (t, [t])
+
+
+def _shared_buffer_job(t):
+    _BUF[0] = t            # a module-level result buffer, reused by every call in the same process
+    return (t, _BUF)
+
+
+def chunked_dispatch(ctx) -> None:
+    """spec/PoolChunks.tla: imap_unordered with a chunk size.  TLC checks that a design whose jobs return fresh objects
+    is exact for every (W, NT, CS) and chunk completion order, that jobs returning a per-process buffer are harmless with
+    CS = 1 and wrong with CS > 1 (two sites, each fine alone); every terminal behaviour of both variants is replayed on
+    the harness's Pool stand-in (what the checks above run the library on), and in the thorough tier on the real
+    multiprocessing.Pool - so the stand-in shows a shared-state defect exactly where the real pool would."""
+    import multiprocessing
+
+    nt = 5 if ctx.quick else 7
+    base = dict(MaxW=3, MaxNT=nt, MaxCS=3)
+    laws = ["OwnValue", "ExactlyOnce", "ChunkContiguous", "FeasibleChunkOrder"]
+    res = tlc.run("PoolChunks", tlc.make_cfg(constants=dict(base, Deviations="{}"), invariants=laws + ["PrintDone"], properties=["Termination"], deadlock=False), coverage=True)
+    ctx.add_tlc(f"PoolChunks ideal: W<=3, NT<={nt}, chunksize<=3, all completion orders", res)
+    ctx.require(res.ok, f"PoolChunks ideal design violated in TLC: {res.error_kind} {res.error_name}")
+    for act in ("SomeDispatch", "SomeEval", "SomeComplete"):
+        ctx.require(res.coverage.get(act, (0, 0))[1] > 0, f"PoolChunks action {act} never taken (vacuous)")
+    alone = tlc.run("PoolChunks", tlc.make_cfg(constants=dict(base, MaxCS=1, Deviations='{"SharedBuffers"}'), invariants=["OwnValue", "ExactlyOnce"], deadlock=False), workers=2)
+    ctx.add_tlc("PoolChunks SharedBuffers with chunksize 1 (harmless alone)", alone)
+    ctx.require(alone.ok, "SharedBuffers with chunksize 1 should satisfy OwnValue")
+    dev = tlc.run("PoolChunks", tlc.make_cfg(constants=dict(base, Deviations='{"SharedBuffers"}'), invariants=["OwnValue"], deadlock=False), workers=1)
+    ctx.add_tlc("PoolChunks deviation SharedBuffers with chunksize > 1", dev)
+    ctx.require(dev.error_kind == "invariant" and dev.error_name == "OwnValue", "deviation SharedBuffers gave no OwnValue counterexample")
+    devall = tlc.run("PoolChunks", tlc.make_cfg(constants=dict(base, Deviations='{"SharedBuffers"}'), invariants=["ExactlyOnce", "ChunkContiguous", "PrintDone"], deadlock=False))
+    ctx.add_tlc("PoolChunks SharedBuffers: terminal behaviours for the replay", devall)
+    ctx.require(devall.ok, f"PoolChunks SharedBuffers run failed: {devall.error_kind} {devall.error_name}")
+
+    def on_standin(job, W, NT, CS, chunk_order):
+        def order_source(w, n):      # n = number of chunks (= tasks for CS = 1)
+            return list(chunk_order)
+
+        def main():
+            with multiprocessing.Pool(W) as pool:
+                return [(t, b[0]) for t, b in pool.imap_unordered(job, range(1, NT + 1), chunksize=CS)]
+
+        _, outcome = detrt.run_main(main, order_source=order_source)
+        return outcome
+
+    nrep = 0
+    for variant, result, job in (("fresh", res, _fresh_job), ("shared", devall, _shared_buffer_job)):
+        seen = set()
+        for W, NT, CS, ts, vs in result.printed("chunks"):
+            key = (W, NT, CS, tuple(ts))
+            if key in seen or NT == 0 or W == 1:
+                continue
+            seen.add(key)
+            chunk_order = [(t - 1) // CS for t in ts if (t - 1) % CS == 0]
+            outcome = on_standin(job, W, NT, CS, chunk_order)
+            nrep += 1
+            ctx.evaluated(1, ("chunks", variant) + key)
+            ctx.validated(1)
+            want = list(zip(ts, vs))
+            if outcome[0] != "ok" or list(outcome[1]) != want:
+                raise core_machinery(f"Pool stand-in differs from PoolChunks ({variant}, W={W}, NT={NT}, CS={CS}, chunks {chunk_order}): {outcome!r:.300} != {want}")
+    real = 0
+    if not ctx.quick:
+        mp = multiprocessing.get_context("fork")
+        for CS in (1, 2, 3):
+            for NT in (4, 6, 7):
+                with mp.Pool(2) as pool:
+                    got = sorted((t, b[0]) for t, b in pool.imap_unordered(_shared_buffer_job, range(1, NT + 1), chunksize=CS))
+                want = sorted((t, min(NT, ((t - 1) // CS + 1) * CS)) for t in range(1, NT + 1))
+                real += 1
+                if got != want:
+                    ctx.drift("C05|real_pool_differs_from_PoolChunks_SharedBuffers", dict(NT=NT, chunksize=CS, got=got, model=want))
+    ctx.extra["chunked_dispatch"] = dict(behaviours_replayed_on_stand_in=nrep, real_pool_runs=real, max_tasks=nt, max_chunksize=3)
+
+
+def core_machinery(msg):
+    from harness.core import MachineryError
+
+    return MachineryError(msg)
+
+
 # --- entry points --------------------------------------------------------
 
 
@@ -237,6 +324,7 @@ def run(ctx) -> None:
     for k, v in big.items():
         orders.setdefault(k, v)
     dev = tlc_deviation(ctx)
+    chunked_dispatch(ctx)
 
     with scratch("c05_") as root:
         worlds = {}
